@@ -52,11 +52,6 @@ def big_ok(t):
 
 
 def t_mag(task):
-    from mpmath import mp, mpf, mpc, mpq if False else None
-    return None
-
-
-def t_mag(task):     # noqa: F811
     from mpmath import mp, mpf, mpc
     from mpmath.rational import mpq
     acc = Acc()
